@@ -5,6 +5,6 @@ PLAN['C05'] = dict(
          'B_after per the documented table (bitwise), index arrays, padding, residual of the returned X in the scaled system against the factor-derived bound (refined X only when n*eps*cond*sigma < 1e-2 (sigma = max/min of |op(A)||x|+|b|, the Skeel condition for working-precision refinement)); non-trivial = residual judged and n >= 2',
     counter_names=['sum residual/bound per-mille', 'max residual/bound per-mille', 'residual verdicts skipped by the conditioning rule'],
     min_nontrivial={'quick': 500, 'thorough': 60000},
-    require_tags={'quick': ['equed=N', 'equed=R', 'equed=C', 'equed=B', 'trans=0', 'trans=1', 'trans=2', 'NR', 'NC', 'refine=1', 'refine=0', 'mem=workspace', 'resolve-FACTORED/equed=N', 'resolve-FACTORED/equed=R', 'resolve-FACTORED/equed=C', 'resolve-FACTORED/equed=B']},
+    require_tags={'quick': ['equed=N', 'equed=R', 'equed=C', 'equed=B', 'trans=0', 'trans=1', 'trans=2', 'NR', 'NC', 'refine=1', 'refine=0', 'mem=workspace', 'resolve-FACTORED/equed=N', 'resolve-FACTORED/equed=R', 'resolve-FACTORED/equed=C', 'resolve-FACTORED/equed=B', 'columns-beyond-exponent-range']},
     assumptions=['bound constant c = 8 / 16', 'refined solutions are judged only when n*eps*cond_1*sigma < 1e-2 (cond from a long double inverse): outside that range LAPACK-style refinement legitimately loses the componentwise bound (e.g. a 0 = 0 row perturbed by a refinement step)'],
 )
